@@ -11,6 +11,14 @@ through a function pointer) a tracked value has no live protector and is still u
 (backward liveness in which drops are not uses), or is passed to that very call.
 Values from parameters, interpreter fields or heap reads are never tracked (caller/heap rooted by
 convention), so removing a redundant guard on an input does not alarm.
+
+A third origin, DETACHED (rule G4d): a Gc-bearing value moved *out of* shared heap state - the result of
+`mem::take` / `mem::replace` / `Option::take` / `pop` / `remove` / `swap_remove` / `drain` / `pop_front` /
+`split_off` applied to a place behind a `RefMut` (a `borrow_mut()` of a `Gc` object or of an
+`Rc<RefCell<..>>` state the tracer walks).  The heap no longer references what was taken, so from
+that point the value is exactly as rooted as a fresh allocation with no guard: it is tracked with an
+empty protector set.  Guarding every element in a loop over the container (`for v in &c {
+guard.guard(..) }`) or through a helper that takes `(&Guard, &container)` protects the container.
 """
 import re
 
@@ -38,6 +46,44 @@ def is_vec(fx, ti):
 
 
 _cont = {}
+_bearing = {}
+DETACHERS = ("std::mem::take", "std::mem::replace", "std::option::Option::<T>::take", "std::vec::Vec::<T, A>::pop",
+             "std::vec::Vec::<T, A>::remove", "std::vec::Vec::<T, A>::swap_remove", "std::vec::Vec::<T, A>::drain",
+             "std::vec::Vec::<T, A>::split_off", "std::collections::VecDeque::<T, A>::pop_front",
+             "std::collections::VecDeque::<T, A>::pop_back", "std::collections::HashMap::<K, V, S, A>::remove",
+             "std::collections::HashMap::<K, V, S, A>::drain")
+# calls whose result is (a view of / an element of / a copy of) their first argument
+DERIVING = ("clone::Clone>::clone", "::cheap_clone", "::clone", "Deref>::deref", "DerefMut>::deref_mut", "::next", "::iter",
+            "::iter_mut", "IntoIterator>::into_iter", "::as_ref", "::as_mut", "::unwrap", "::expect", "Index<I>>::index",
+            "::get", "::as_slice", "::borrow", "::first", "::last", "::values", "::keys", "::enumerate", "::rev",
+            "::peekable", "::as_deref", "::cloned", "::copied", "::into_iter")
+
+
+def derives(c):
+    """the call's result is derived from its first argument (resolved or trait-level name)"""
+    return (c.get("d") or "").endswith(DERIVING) or (c.get("u") or "").endswith(DERIVING)
+
+
+def creates_iter(c):
+    return any((c.get(k) or "").endswith(("::iter", "::iter_mut", "::into_iter", "::values", "::drain")) for k in ("d", "u"))
+
+
+def bearing_adts(fx):
+    """local ADTs whose fields (transitively) can hold a Gc handle"""
+    k = id(fx)
+    if k not in _bearing:
+        edges = M.adt_edges(fx)
+        b = {"gc::Gc"}
+        ch = True
+        while ch:
+            ch = False
+            for p in fx.adts:
+                if p not in b and edges.get(p, set()) & b:
+                    b.add(p)
+                    ch = True
+        b -= {x for x in b if x.startswith("gc::") and x != "gc::Gc"}
+        _bearing[k] = b | {"value::JsValue", "value::JsMapKey"}
+    return _bearing[k]
 
 
 def is_container(fx, ti):
@@ -52,9 +98,23 @@ def is_container(fx, ti):
                 ok = True
             elif p.startswith(("std::vec::", "std::collections::", "indexmap::", "std::option::Option", "std::iter::", "std::slice::")) or "IntoIter" in p or "Iter" in p:
                 m = M.adts_in_type(fx, ti)
-                ok = bool(m & {"value::JsValue", "gc::Gc", "value::JsMapKey"}) and "&" not in t["s"][:1]
+                ok = bool(m & bearing_adts(fx)) and "&" not in t["s"][:1]
         _cont[k] = ok
     return _cont[k]
+
+
+def is_bearing_struct(fx, ti):
+    """a local struct/enum that holds Gc handles by value (PromiseHandler, a pending completion ..)"""
+    t = fx.ty(ti)
+    return t["k"] == "adt" and t["p"] in fx.adts and t["p"] in bearing_adts(fx) and not type_has_guard(fx, ti) \
+        and t["p"] not in ("interpreter::Interpreter", "interpreter::bytecode_vm::BytecodeVM", "value::JsObject")
+
+
+def trackable(fx, ti):
+    if is_value(fx, ti) or is_vec(fx, ti) or is_bearing_struct(fx, ti):
+        return True
+    t = fx.ty(ti)
+    return t["k"] == "tuple" and not type_has_guard(fx, ti) and any(trackable(fx, a) for a in t["a"])
 
 
 def liveness(f):
@@ -137,6 +197,7 @@ class Flow:
         self.f = f
         self.maygc = maygc
         self.reports = []
+        self.detached = set()
         self.fnptr_is_gc = fnptr_is_gc
         self.live_in, self.live_out = liveness(f)
         self.refs = {}
@@ -144,6 +205,23 @@ class Flow:
             for s in bl["s"]:
                 if s[0] == "a" and s[2][0] == "ref" and not s[1][1]:
                     self.refs[s[1][0]] = s[2][2]
+        # iterator-loop guarding: `for v in &C { .. guard.guard(<derived from v>) .. }` protects C from the
+        # point where the iterator is created (block -> [(container local, guard local or None)])
+        self.loop_guards = {}
+        for bi, t in f.calls():
+            name = t[1].get("d") or ""
+            gop = vop = None
+            if name == "gc::Guard::<T>::guard" and len(t[2]) > 1:
+                gop, vop = t[2][0], t[2][1]
+            elif t[1].get("local") and t[1].get("d") and t[1]["d"] != f.path and rooting_summary(fx, t[1]["d"]):
+                gi, vi = rooting_summary(fx, t[1]["d"])
+                if gi - 1 < len(t[2]) and vi - 1 < len(t[2]):
+                    gop, vop = t[2][gi - 1], t[2][vi - 1]
+            if gop is None or gop[0] not in ("c", "m") or vop[0] not in ("c", "m"):
+                continue
+            g = self.deref_local(gop[1][0])
+            for (cb, cont) in self.derive_chain(vop[1][0])[1]:
+                self.loop_guards.setdefault(cb, []).append((cont, g))
 
     # ---- helpers
     def deref_local(self, local, depth=0):
@@ -164,6 +242,89 @@ class Flow:
                 return pl[0]  # behind a reference parameter
             return self.deref_local(pl[0], depth + 1)
         return None
+
+    def derive_chain(self, local):
+        """(locals the value of `local` was derived from, [(block of an iterator-creating call, container local)]):
+        backwards through copies, references, field projections, clones, derefs and iterator steps"""
+        f = self.f
+        seen = set()
+        iters = []
+        work = [(local, 0)]
+        while work:
+            l, dep = work.pop()
+            if l in seen or dep > 14:
+                continue
+            seen.add(l)
+            for bi, si, rv in f.defs().get(l, []):
+                if si == "T":
+                    name = rv[1].get("d") or ""
+                    if derives(rv[1]) and rv[2] and rv[2][0][0] in ("c", "m"):
+                        a0 = rv[2][0][1][0]
+                        work.append((a0, dep + 1))
+                        if creates_iter(rv[1]):
+                            tgt = self.deref_local(a0)
+                            iters.append((bi, tgt if tgt is not None else a0))
+                    continue
+                if rv[0] == "use" and rv[1][0] in ("c", "m"):
+                    work.append((rv[1][1][0], dep + 1))
+                elif rv[0] == "ref":
+                    work.append((rv[2][0], dep + 1))
+                elif rv[0] == "cast" and rv[2][0] in ("c", "m"):
+                    work.append((rv[2][1][0], dep + 1))
+                elif rv[0] == "agg":
+                    for o in rv[2]:
+                        if o[0] in ("c", "m"):
+                            work.append((o[1][0], dep + 1))
+        return seen, iters
+
+    def behind_refmut(self, local, depth=0):
+        """True iff the reference in `local` points into a `RefMut` (shared heap state borrowed mutably)"""
+        f, fx = self.f, self.fx
+        if depth > 10:
+            return False
+        if "std::cell::RefMut<" in fx.tys(f.locals[local]):
+            return True
+        for bi, si, rv in f.defs().get(local, []):
+            if si == "T":
+                name = rv[1].get("d") or ""
+                # deref_mut / as_mut / `?` / ok_or_else / an accessor `fn elements_mut(&mut self) -> Option<&mut Vec<..>>`:
+                # a call that returns a mutable reference hands on (part of) what its reference arguments point to
+                if "&mut " in fx.tys(f.locals[local]) or name.endswith(("DerefMut>::deref_mut", "::as_mut", "Deref>::deref")):
+                    for a in rv[2]:
+                        if a[0] in ("c", "m") and not a[1][1] and ("&" in fx.tys(f.locals[a[1][0]]) or "RefMut<" in fx.tys(f.locals[a[1][0]])) \
+                                and self.behind_refmut(a[1][0], depth + 1):
+                            return True
+            elif rv[0] == "ref":
+                if self.behind_refmut(rv[2][0], depth + 1):
+                    return True
+            elif rv[0] == "use" and rv[1][0] in ("c", "m"):
+                if self.behind_refmut(rv[1][1][0], depth + 1):
+                    return True
+        return False
+
+    def detached_closure(self):
+        """locals whose value derives from a detached one (for the wording of reports)"""
+        if not hasattr(self, "_dc"):
+            dc = set(self.detached)
+            ch = True
+            while ch:
+                ch = False
+                for l, ds in self.f.defs().items():
+                    if l in dc:
+                        continue
+                    for bi, si, rv in ds:
+                        srcs = []
+                        if si == "T":
+                            srcs = [a[1][0] for a in rv[2] if a[0] in ("c", "m")]
+                            srcs += [x for x in (self.deref_local(y) for y in srcs) if x is not None]
+                        else:
+                            srcs = [pl[0] for pl in F.rvalue_places(rv)]
+                        if any(x in dc for x in srcs):
+                            dc.add(l)
+                            ch = True
+                            break
+            self._dc = dc
+        return self._dc
 
     def is_param_rooted(self, local):
         return 1 <= local <= self.f.argc
@@ -207,7 +368,7 @@ class Flow:
                         holders.discard(sl)
                         # values extracted earlier from sl are now protected by d
                         retarget(prot, sl, d)
-            if is_value(fx, dty) or is_vec(fx, dty):
+            if trackable(fx, dty):
                 if sl in holders and not whole:
                     new_prot = {frozenset([sl])}
                 elif sl in prot:
@@ -220,7 +381,7 @@ class Flow:
                         holders.discard(op[1][0])
                         new_holder = True
                         retarget(prot, op[1][0], d)
-            if is_value(fx, dty) or is_vec(fx, dty):
+            if trackable(fx, dty):
                 for op in ops:
                     if op[0] in ("c", "m") and not op[1][1] and op[1][0] in prot:
                         new_prot = set(prot[op[1][0]]) if new_prot is None else (new_prot | prot[op[1][0]])
@@ -294,7 +455,8 @@ class Flow:
                 v = self.deref_local(args[vi - 1][1][0])
                 if v is None:
                     v = args[vi - 1][1][0]
-                if v in prot:
+                # the value argument may be a view of the tracked local (`&vec` coerced to a slice, a clone ..)
+                for v in ([v] if v in prot else [x for x in self.derive_chain(args[vi - 1][1][0])[0] if x in prot]):
                     if g is not None and g in holders:
                         add_protector(prot, v, g)
                     elif g is None or g not in holders:
@@ -327,7 +489,7 @@ class Flow:
                     holders.add(dl)
             if name.endswith("::unguarded"):
                 pass
-        if is_value(fx, dty) or is_vec(fx, dty):
+        if trackable(fx, dty):
             # clone / copy of a tracked value
             if (name.endswith("clone::Clone>::clone") or name.endswith("CheapClone>::cheap_clone") or name.endswith("::cheap_clone") or name.endswith("::clone")) and args:
                 src = self.deref_local(args[0][1][0]) if args[0][0] in ("c", "m") else None
@@ -340,6 +502,24 @@ class Flow:
                         g = self.deref_local(a[1][0])
                         if g is not None and g in holders and fx.tys(dty).startswith(("gc::Gc<", "value::JsValue")):
                             prot[dl] = {frozenset([g])}
+        # DETACHED origin: a Gc-bearing value moved out of mutably borrowed shared heap state
+        if d is not None and is_detacher(fx, name) and args and args[0][0] in ("c", "m") and trackable(fx, dty) \
+                and self.behind_refmut(args[0][1][0]):
+            prot[dl] = {frozenset()}
+            self.detached.add(dl)
+        # a loop that guards every element protects the container from the creation of its iterator on
+        for cont, g in self.loop_guards.get(bi, ()):
+            if cont in prot:
+                if g is not None and g in holders:
+                    add_protector(prot, cont, g)
+                elif g is None:
+                    prot.pop(cont, None)
+        # an element / view taken from a tracked container through a reference is as protected as the container
+        if dl is not None and dl not in prot and d is not None and not c.get("local") and trackable(fx, dty) and derives(c) \
+                and args and args[0][0] in ("c", "m"):
+            src = self.deref_local(args[0][1][0])
+            if src is not None and src in prot and src != dl:
+                prot[dl] = set(prot[src])
         # stores into local containers:  C.push(v) / C.insert(k, v) / C.entry(k) ...  (first argument `&mut C`)
         if d is not None and not c.get("local") and len(args) >= 2 and args[0][0] in ("c", "m") and fx.tys(f.locals[args[0][1][0]]).startswith("&mut "):
             cont = self.deref_local(args[0][1][0])
@@ -349,7 +529,7 @@ class Flow:
                         prot[cont] = set(prot[a[1][0]]) if cont not in prot else (prot[cont] | prot[a[1][0]])
                 # `entry(k).or_default().push(v)`: the returned handle aliases the container
         # by-value transformations of tracked containers (into_iter, map, collect, unwrap ...)
-        if dl is not None and dl not in prot and d is not None and not c.get("local") and (is_value(fx, dty) or is_vec(fx, dty)):
+        if dl is not None and dl not in prot and d is not None and not c.get("local") and (trackable(fx, dty)):
             alts = None
             for a in args:
                 if a[0] == "m" and not a[1][1] and a[1][0] in prot:
@@ -500,6 +680,7 @@ def rooting_summary(fx, path):
     if key in _root_summ:
         return _root_summ[key]
     res = None
+    _root_summ[key] = None  # recursion stop
     g = fx.fns.get(path)
     if g is not None and not g.closure:
         gp = [i for i in range(1, g.argc + 1) if fx.tys(g.locals[i]).startswith("&gc::Guard<")]
@@ -532,8 +713,54 @@ def rooting_summary(fx, path):
                             s0 = nxt
                         if s0 is not None and 1 <= s0 <= g.argc and s0 not in gp:
                             res = (r0, s0)
+                        elif res is None and t[2][1][0] in ("c", "m"):
+                            # guards something derived from a parameter (elements / fields of `&[T]`, `&Vec<T>`, `&T`)
+                            ps = [x for x in fl.derive_chain(t[2][1][1][0])[0] if 1 <= x <= g.argc and x not in gp
+                                  and fx.tys(g.locals[x]).startswith("&")]
+                            if ps:
+                                res = (r0, min(ps))
     _root_summ[key] = res
     return res
+
+
+_det_summ = {}
+
+
+def detaching_fns(fx):
+    """local functions `fn(&mut self-like, ..) -> T` whose result is moved out of what their first parameter
+    points to (it derives from a DETACHER - or from another such function - applied to a place behind
+    parameter 1): calling one on mutably borrowed heap state detaches the result like `mem::take` does"""
+    k = id(fx)
+    if k in _det_summ:
+        return _det_summ[k]
+    res = set()
+    _det_summ[k] = res
+    cands = [g for g in fx.fns.values() if not g.closure and not g.derived and g.argc >= 1 and fx.tys(g.locals[1]).startswith("&mut ")
+             and trackable(fx, g.locals[0]) and not g.file.startswith("src/gc.rs")]
+    flows = {}
+    ch = True
+    while ch:
+        ch = False
+        for g in cands:
+            if g.path in res:
+                continue
+            fl = flows.get(g.path)
+            if fl is None:
+                fl = flows[g.path] = Flow(fx, g, set())
+            ret = fl.derive_chain(0)[0]
+            for bi, t in g.calls():
+                name = t[1].get("d") or ""
+                if not (name.startswith(DETACHERS) or name in res) or not t[2] or t[2][0][0] not in ("c", "m") or t[3][1]:
+                    continue
+                if t[3][0] in ret and 1 in fl.derive_chain(t[2][0][1][0])[0]:
+                    res.add(g.path)
+                    ch = True
+                    break
+    return res
+
+
+def is_detacher(fx, name):
+    return name.startswith(DETACHERS) or name in detaching_fns(fx)
 
 
 def analyse(fx, scope=None):
@@ -545,10 +772,17 @@ def analyse(fx, scope=None):
             continue
         if scope and not f.file.startswith(scope):
             continue
-        if not any(type_has_guard(fx, t) for t in f.locals):
+        if not any(type_has_guard(fx, t) for t in f.locals) and not any(is_detacher(fx, t[1].get("d") or "") for _, t in f.calls()):
             continue
         nfn += 1
         fl = Flow(fx, f, maygc)
         for (bi, t, x, used_after) in fl.run():
-            out.append((f, bi, t, x, used_after))
+            out.append((f, bi, t, x, used_after, x in fl.detached_closure()))
+        for bi, t in f.calls():
+            if is_detacher(fx, t[1].get("d") or "") and t[2] and t[2][0][0] in ("c", "m") and not t[3][1] \
+                    and trackable(fx, f.locals[t[3][0]]) and fl.behind_refmut(t[2][0][1][0]):
+                DETACH_SITES.append((f, bi, t))
     return nfn, out
+
+
+DETACH_SITES = []
